@@ -589,8 +589,23 @@ _UNMODELLED = ("fixed_quad", "quadrature", "romberg", "simpson", "simps", "trape
                "RegularGridInterpolator", "griddata", "solve_banded", "solve", "spsolve", "lstsq")
 
 
+class _Linalg(metaclass=_Namespace):
+    """scipy.linalg: nothing of it is modelled (dense / banded solves of the changed code end in an engine gap)."""
+    __sx_only_if_scipy__ = True
+
+
+class _Special(metaclass=_Namespace):
+    __sx_only_if_scipy__ = True
+
+
+class _Ndimage(metaclass=_Namespace):
+    __sx_only_if_scipy__ = True
+    uniform_filter1d = staticmethod(uniform_filter1d)
+
+
 def rebind():
     d = {n: _not_modelled(n) for n in _UNMODELLED}
+    d.update(linalg=_Linalg, special=_Special)
     d.update(interp1d=Interp1d, cumulative_trapezoid=cumulative_trapezoid, sparse=SPARSE, minimize=minimize,
              brentq=brentq, quad=quad, curve_fit=curve_fit, interpolate=_Interpolate, integrate=_Integrate,
              sp=SP)
